@@ -188,6 +188,12 @@ func (e *Env) Predict(sel map[string]bool, cfg BuildCfg) (*Pred, error) {
 			// its output hash (and with it this target's key) is not fixed by the documented rules
 			p.Class[l] = MayExec
 			p.Reason[l] = "rules-silent"
+		case e.Memo[st.LooseKey] == "ok" && !e.DefSeen[st.LooseKey+"|"+st.Written]:
+			// same command, inputs and dependency outputs as a cached state, but the dependency
+			// list is written differently (a label replaced by or added next to an alias of the
+			// same target): that is a change of the definition, grog may key on it
+			p.Class[l] = MayExec
+			p.Reason[l] = "dependency-list-rewritten"
 		case e.Memo[st.LooseKey] == "ok":
 			p.Class[l] = MustNotExec
 			p.Reason[l] = "cached"
@@ -240,9 +246,13 @@ func (e *Env) Commit(p *Pred, o *Obs, cfg BuildCfg) {
 				continue
 			}
 		}
+		if !ran && cls == MayExec && p.Reason[l] == "dependency-list-rewritten" {
+			e.DefSeen[st.LooseKey+"|"+st.Written] = true // grog answered: this spelling is the cached one
+		}
 		if !ran || p.WillFail[l] {
 			continue
 		}
+		e.DefSeen[st.LooseKey+"|"+st.Written] = true
 		delete(e.Taint, l)
 		delete(e.Pending, l)
 		e.LastViews[l] = append([]spec.DepView{}, st.Views...)
